@@ -110,6 +110,83 @@ def detect_fn(ctx):
     return cands[0] if len(cands) == 1 else None
 
 
+def _check_filter_cases(ctx, out, dv, rule="C14.filter"):
+    """The same table when the selection is not a closure handed to `filter` (an explicit loop over the
+    factory table, a helper function): by case analysis over the normalised function - for each of the
+    8 valuations of (enabled set empty, name in enabled, name in disabled), is a factory called?"""
+    from engine import casewalk as CW
+    import itertools
+    v = ctx.inl(dv, skip=ctx.domain_api, tag="domain", sugar=True)
+    cfg = cfg_of(v)
+    main = ctx.main_view()
+    role_of_param = {}
+    if main is not None:
+        for bi, t in main.calls():
+            if (t.get("res") or "") == dv.id:
+                for idx, a in enumerate(t["args"]):
+                    labs = ctx.prov.read_operand(main, a)
+                    if P.has_call(labs, r"flags::Args::disabled_validators$"):
+                        role_of_param[idx + 1] = "DISABLED"
+                    if P.has_call(labs, r"flags::Args::enabled_validators$"):
+                        role_of_param[idx + 1] = "ENABLED" if role_of_param.get(idx + 1) is None else "BOTH"
+    if sorted(role_of_param.values()) != ["DISABLED", "ENABLED"]:
+        out.viol(rule, "%s|roles" % rule, ctx.where(dv), "the -d / -e sets do not reach the detection function as two separate parameters (%s)" % role_of_param)
+        out.inst(rule, 0, 2)
+        return
+    factory_calls = {bi for bi, t in v.calls() if not t.get("def") and not t.get("res") and bi in cfg.reachable}
+    factory_calls |= {bi for bi, t in v.calls() if re.search(r"ops::(Fn|FnMut|FnOnce)<.*>>?::call(_mut|_once)?$", callee_name(t)) and "ValidatorDetector" in (t.get("dest_ty") or "")}
+    stop_blocks = {bi for bi, t in v.calls() if callee_matches(t, r"validators::ValidatorDetector::detect$")}
+    if not factory_calls:
+        out.viol(rule, "%s|factory" % rule, ctx.where(dv), "no call of a detector factory found in the detection function")
+        out.inst(rule, 0, 2)
+        return
+    std = CW.std_hooks()
+    n = 0
+    rows = []
+    for en_empty, in_en, in_dis in itertools.product((True, False), repeat=3):
+        hit = [False]
+
+        def hook(w, bb, t, argv, env):
+            nm = callee_name(t)
+            a0 = w.deref_val(env, argv[0]) if argv else CW.TOP
+            if re.search(r"HashSet::<T, S, A>::is_empty$|HashSet::<T, S, A>::len$", nm) and a0[0] == "sym":
+                if a0[1] == "ENABLED":
+                    return CW.const((1 if en_empty else 0) if nm.endswith("is_empty") else (0 if en_empty else 1))
+                return None
+            if re.search(r"HashSet::<T, S, A>::contains$", nm) and a0[0] == "sym":
+                if a0[1] == "ENABLED":
+                    return CW.const(1 if (in_en and not en_empty) else 0)
+                if a0[1] == "DISABLED":
+                    return CW.const(1 if in_dis else 0)
+                return None
+            return std(w, bb, t, argv, env)
+        w = CW.Walk(ctx, v, [hook], max_states=20000)
+
+        def on_visit(bb, env):
+            if bb in factory_calls:
+                hit[0] = True
+        w.on_visit = on_visit
+        env = {p: CW.sym(r) for p, r in role_of_param.items()}
+        try:
+            w.explore(0, env, lambda bb, e: bb in stop_blocks)
+        except CW.Limit as e:
+            out.viol(rule, "%s|limit" % rule, ctx.where(dv), "case analysis of the detector selection did not finish (%s)" % e)
+            out.inst(rule, 0, 2)
+            return
+        want = (in_en if not en_empty else (not in_dis))
+        if en_empty and in_en:
+            continue        # impossible valuation: a name cannot be in an empty set
+        rows.append(((en_empty, in_en, in_dis), hit[0]))
+        if hit[0] != want:
+            out.viol(rule, "%s|table|%d%d%d" % (rule, en_empty, in_en, in_dis), ctx.where(dv),
+                     "detector selection: with the enabled set %s, the name %s the enabled set and %s the disabled set, the detector is %s; expected %s (keep = name in enabled when that set is non-empty, else name not in disabled)"
+                     % ("empty" if en_empty else "non-empty", "in" if in_en else "not in", "in" if in_dis else "not in", "created" if hit[0] else "not created", "created" if want else "not created"))
+        else:
+            n += 1
+    out.inst(rule, 2 if n == len(rows) else 0, 2, ["%s => %s" % r for r in rows], exhaustive=True,
+             note="case analysis over the normalised detection function; 6 consistent valuations of (enabled empty, name in enabled, name in disabled)")
+
+
 def check_filter(ctx, out, dv):
     n = 0
     # the closure handed to `filter` over the factory table
@@ -122,7 +199,7 @@ def check_filter(ctx, out, dv):
                 fclos = ctx.facts.body(e[1][8:])
                 fsite = (bi, t)
     if fclos is None:
-        out.inst("C14.filter", 0, 2, note="filter closure over the factory table not found")
+        _check_filter_cases(ctx, out, dv)
         return
     # resolve upvars to parameters of detect_validators (a captured closure contributes what it
     # captured itself: `let is_selected = |n| ..; .filter(|(n, _)| is_selected(n))`)
@@ -479,7 +556,163 @@ def check_reject(ctx, out):
     out.inst("C14.reject", n, 5, [pv.id])
 
 
+def check_worklist(ctx, out, dv, rule):
+    """The lazy detection loop, decided on a small model (engine.casewalk + engine.listmodel): the list of
+    pending detectors is the concrete three-element list [D1, D2, D3]; for each of the 8 ways the three
+    can answer one block (a validator / nothing), the per-block iteration is walked and what happened is
+    compared with the specification: every pending detector is asked about the block exactly once, and
+    afterwards exactly those that answered `nothing` are still pending (none lost, none duplicated, none
+    that produced a validator kept). Returns True/False if decided, None if the model could not follow
+    the code (the caller then falls back to the structural rule)."""
+    from engine import casewalk as CW
+    from engine import listmodel as LM
+    import itertools
+    v = ctx.inl(dv, skip=ctx.domain_api, tag="domain", sugar=True)
+    cfg = cfg_of(v)
+    E = ctx.expr(v)
+    dets = [(bi, t) for bi, t in v.calls() if callee_matches(t, r"validators::ValidatorDetector::detect$") and bi in cfg.reachable]
+    if not dets:
+        return None
+    # the per-block loop: the loop whose driving next() yields the block handed to detect
+    hb = None
+    e = E.operand(dets[0][1]["args"][1])
+    for x in walk(e):
+        if x[0] == "call" and re.search(r"Iterator>?::next$", x[1]) and len(x) > 3 and isinstance(x[3], int):
+            hb = cfg.innermost_loop(x[3])
+            break
+    if hb is None:
+        return None
+    loops = cfg.loops()
+    for H, HB in loops.items():
+        if H == hb or not (set(loops[hb]) < set(HB)):
+            continue
+        own = [y for y in HB if v.blocks[y]["term"] and v.blocks[y]["term"]["k"] == "call" and callee_matches(v.blocks[y]["term"], r"Iterator>?::next$") and cfg.innermost_loop(y) == H]
+        between = [H2 for H2, HB2 in loops.items() if H2 not in (hb, H) and set(loops[hb]) < set(HB2) and set(HB2) < set(HB)]
+        if not own and not between:
+            hb = H
+            break
+    lblocks = set(loops[hb])
+    if not all(bi in lblocks for bi, t in dets):
+        return None
+    drivers = {y for y in lblocks if v.blocks[y]["term"] and v.blocks[y]["term"]["k"] == "call" and callee_matches(v.blocks[y]["term"], r"Iterator>?::next$")
+               and not re.search(r"ValidatorDetector", (v.blocks[y]["term"].get("arg_tys") or [""])[0] + v.local_ty((util.op_place(v.blocks[y]["term"]["args"][0]) or {"l": 0})["l"]))}
+    DET_VEC = r"std::vec::Vec<std::boxed::Box<dyn blockwatch::validators::ValidatorDetector"
+    pend = []
+    for l, loc in enumerate(v.locals):
+        if re.match(DET_VEC, loc.get("ty") or ""):
+            ds = v.defs().get(l, [])
+            if ds and any(d[1] not in lblocks for d in ds) and not all(d[1] in lblocks for d in ds):
+                pend.append(l)
+            elif ds and all(d[1] not in lblocks for d in ds):
+                pend.append(l)
+    used_in_loop = {pl0["l"] for bi, sp, pl0 in util.all_places(v) if bi in lblocks}
+    pend = sorted(set(pend) & used_in_loop)
+    if len(pend) != 1:
+        return None
+    pl = pend[0]
+    vt = ctx.facts.adts.get("blockwatch::validators::ValidatorType")
+    sync_vi = next((x["vi"] for x in (vt or {}).get("variants", []) if x["name"] == "Sync"), 0)
+    std = CW.std_hooks()
+    lm = LM.hooks()
+    D = ["D1", "D2", "D3"]
+    ok = True
+    decided = True
+    for case in itertools.product((True, False), repeat=3):
+        answers = dict(zip(D, case))
+        records = []
+
+        def hook(w, bb, t, argv, env, answers=answers):
+            nm = callee_name(t)
+            if bb in drivers and env.get(-4) is None:
+                env[-4] = CW.const(1)
+                return CW.adt("std::option::Option", "Some", 1, [("0", CW.sym("BLOCK"))])
+            if callee_matches(t, r"validators::ValidatorDetector::detect$"):
+                d0 = w.deref_val(env, argv[0]) if argv else CW.TOP
+                if d0[0] != "sym" or d0[1] not in answers:
+                    env[-3] = ("tuple", (CW.sym("?"),) + env.get(-3, ("tuple", ()))[1])
+                    return None
+                env[-3] = ("tuple", env.get(-3, ("tuple", ()))[1] + (d0,))
+                if answers[d0[1]]:
+                    val = CW.adt("std::option::Option", "Some", 1, [("0", CW.adt("blockwatch::validators::ValidatorType", "Sync", sync_vi, [("0", CW.sym("V" + d0[1][1:]))]))])
+                else:
+                    val = CW.adt("std::option::Option", "None", 0, [])
+                return CW.adt("std::result::Result", "Ok", 0, [("0", val)])
+            r = lm(w, bb, t, argv, env)
+            if r is not None:
+                return r
+            return std(w, bb, t, argv, env)
+        w = CW.Walk(ctx, v, [hook], max_states=20000)
+        first = [True]
+
+        def stop(bb, env, records=records, first=first):
+            if bb == hb:
+                if first[0]:
+                    first[0] = False
+                    return False
+                records.append(("next-block", env.get(pl, CW.TOP), env.get(-3, ("tuple", ()))))
+                return True
+            if bb not in lblocks:
+                records.append(("left", env.get(pl, CW.TOP), env.get(-3, ("tuple", ()))))
+                return True
+            return False
+        try:
+            w.explore(hb, {pl: LM.lst([CW.sym(x) for x in D])}, stop)
+        except CW.Limit:
+            return None
+        want_left = sorted(x for x in D if not answers[x])
+        desc = ", ".join("%s: %s" % (x, "validator" if answers[x] else "nothing") for x in D)
+        if not records:
+            decided = False
+            continue
+        for kind, pv, asked in records:
+            if pv[0] != "list" or any(i[0] != "sym" for i in pv[1]) or any(a[0] != "sym" or a[1] == "?" for a in asked[1]):
+                decided = False
+                continue
+            got_left = sorted(i[1] for i in pv[1])
+            got_asked = sorted(a[1] for a in asked[1])
+            if got_asked != sorted(D):
+                ok = False
+                missing = sorted(set(D) - set(got_asked))
+                twice = sorted({a for a in got_asked if got_asked.count(a) > 1})
+                out.viol(rule, "%s|%s" % (rule, "skip-after-remove" if missing else "asked-twice"), ctx.where(dv),
+                         "detection loop on pending detectors [D1, D2, D3] (answers for one block - %s): %s; every pending detector must be asked about every block exactly once, otherwise its validator may never be created (or is created twice)" % (
+                             desc, ("%s never asked about the block" % missing) if missing else ("%s asked more than once" % twice)))
+            elif got_left != want_left:
+                ok = False
+                lost = sorted(set(want_left) - set(got_left))
+                kept = sorted(set(got_left) - set(want_left))
+                dup = sorted({a for a in got_left if got_left.count(a) > 1})
+                what = []
+                if lost:
+                    what.append("%s lost (not kept for the following blocks although it produced nothing yet)" % lost)
+                if kept:
+                    what.append("%s kept although its validator was created (it would be created again)" % kept)
+                if dup:
+                    what.append("%s pending twice" % dup)
+                out.viol(rule, "%s|%s" % (rule, "not-restored" if lost else ("requeued-detected" if kept else "duplicated")), ctx.where(dv),
+                         "detection loop on pending detectors [D1, D2, D3] (answers for one block - %s): afterwards the pending list is %s; %s" % (desc, got_left, "; ".join(what)))
+    if not decided:
+        return None
+    return ok
+
+
 def check_once(ctx, out, dv, rule="C11.once"):
+    """The lazy detection loop neither loses nor duplicates a detector."""
+    tr = out.trial()
+    res = None
+    try:
+        res = check_worklist(ctx, tr, dv, rule)
+    except Exception as e:      # noqa: BLE001 - the structural rule below decides instead
+        ctx.view_fallbacks.append("%s: small-model detection analysis failed (%s: %s)" % (rule, type(e).__name__, e))
+        res = None
+    if res is not None:
+        out.adopt(tr)
+        out.inst(rule, 8 if res else 0, 4, ["small model [D1,D2,D3] x 8 answer patterns: each asked once; pending afterwards = those that produced nothing"], exhaustive=True)
+        return
+    _check_once_structural(ctx, out, dv, rule)
+
+
+def _check_once_structural(ctx, out, dv, rule="C11.once"):
     """The lazy detection loop neither loses nor duplicates a detector."""
     cfg = cfg_of(dv)
     E = ctx.expr(dv)
